@@ -254,9 +254,20 @@ def run(ctx: Ctx):
             for e_ in run_['log']:
                 by_alpha.setdefault(e_['alpha'], []).append(e_['failed'])
             dead_fidelity = any(all(v_) for v_ in by_alpha.values())
+            # F4 family: an index ALL of whose own grid points failed (its first point among them) has no valid data of its own either
+            dead_index = False
+            try:
+                td_ = run_['comp'].training_data; nx_ = len(run_['names'])
+                for a_, b_ in run_['comp'].active_set.union(run_['comp'].candidate_set):
+                    coords_ = [tuple(c_) for c_ in td_._expand_grid_coords(tuple(b_)[:nx_])]
+                    if coords_ and all((tuple(a_), c_) in fk for c_ in coords_) and len(coords_) >= 2:
+                        dead_index = True
+            except Exception:
+                dead_index = False
             if run_['raised']:
                 ctx.violate('C14:first-evaluation-of-a-fidelity-fails' if first_of_fidelity else
-                            'C14:every-evaluation-of-a-fidelity-failed' if dead_fidelity else 'C14:training-raises-after-failure',
+                            'C14:every-evaluation-of-a-fidelity-failed' if dead_fidelity else
+                            'C14:every-point-of-an-index-failed' if dead_index else 'C14:training-raises-after-failure',
                             f'training with evaluation(s) {sorted(fail_at)} failing ({kind}, {mode}; failed points {sorted(fk)}) raised {run_["raised"]}', case)
                 continue
             # index sets and weights are those of the failure-free run
